@@ -123,3 +123,4 @@ def mon_c03(world, ev, before, rec, after):
             out.append({'what': 'destination advanced to a commit without a SUCCESSFUL build', 'ref': n,
                         'sha': sha, 'status': st, 'merged_prs': merged, 'waived': waived})
     return out
+
